@@ -477,7 +477,18 @@ class ServiceInfo(RecordUpdateListener):
         """
         new_records_futures = self._new_records_futures
         updated: bool = False
+        # Address records are processed last. The SRV record that names the
+        # host may follow them in the same packet: processed in packet order
+        # they would be ignored (the host is not known yet), they are not in
+        # the cache yet when the SRV record is processed, and they will not be
+        # sent again because the next query lists them as known answers.
+        address_updates: List[RecordUpdate] = []
         for record_update in records:
+            if type(record_update.new) is DNSAddress:
+                address_updates.append(record_update)
+                continue
+            updated |= self._process_record_threadsafe(zc, record_update.new, now)
+        for record_update in address_updates:
             updated |= self._process_record_threadsafe(zc, record_update.new, now)
         if updated and new_records_futures:
             _resolve_all_futures_to_none(new_records_futures)
